@@ -118,9 +118,21 @@ def _generate(c):
     s.kind = ch.choice("w", ["clf", "reg"], "kind")
     s.n = ch.integer("w", 6, 48, "n")
     s.d = ch.integer("w", 1, 3, "d")
+    # a wide table cut into many cells per feature (16 features x 16 bins: more
+    # cells than a 64-bit cell number can count), with rows that share the
+    # cells of the leading features and differ only in the last ones
+    s.wide = ch.draw("w", 24, "wide") == 23
+    if s.wide:
+        s.d = 16
+        s.n = max(s.n, 12)
     s.data_seed = ch.subseed("w", "data")
     rs = numpy.random.RandomState(s.data_seed)
     s.X = U.unique_rows(rs, s.n, s.d, ch.choice("w", ["normal", "grid", "clusters"], "xstyle"))
+    if s.wide:
+        base = rs.rand(max(2, s.n // 3), s.d)
+        s.X = base[rs.randint(0, base.shape[0], s.n)].copy()
+        s.X[:, 12:] = rs.rand(s.n, 4)
+        s.X += numpy.arange(s.n)[:, None] * 1e-9  # rows stay pairwise distinct
     s.xdtype = ch.weighted("w", [("float64", 6), ("int64", 1), ("float32", 1)], "xdtype")
     if s.kind == "reg":
         s.y = s.X @ rs.randn(s.d) + numpy.sin(s.X[:, 0]) + 0.1 * rs.randn(s.n)
@@ -129,6 +141,9 @@ def _generate(c):
     else:
         s.y, s.ltype, s.ncls = _labels(ch, rs, s.X, s.n)
     s.binner, s.binner_desc, s.binner_kind = _binner(ch, s.kind)
+    if s.wide:
+        s.binner, s.binner_desc, s.binner_kind = KBinsDiscretizer(n_bins=16, strategy="uniform"), "kbins(16,uniform)", "kbins"
+        c.probe("wide_table_many_cells")
     s.peer, s.peer_name = _peer(ch, s.kind)
     s.w = None
     if ch.boolean("w", 0.35, "weights"):
